@@ -33,6 +33,21 @@ if [ "$ID" = "C11" ]; then
   "$BIN" -test.timeout 0 | grep -v '^PASS$\|^ok '
   exit "${PIPESTATUS[0]}"
 fi
+if [ "$ID" = "C15" ]; then
+  # the worker-side part of C15 needs testing/synctest (fake clock): a test binary that runs first
+  # and writes its result as JSON, which `verifx check C15` merges into C15's evidence and verdict
+  WBIN="$ROOT/.bin/c15w.$$.test"
+  export VERIF_C15W_JSON="$ROOT/.bin/c15w.$$.json"
+  trap 'rm -f "$BIN" "$WBIN" "$VERIF_C15W_JSON"; [ -n "${VERIF_OVERLAY:-}" ] && rm -rf "$OVLDIR"' EXIT
+  if ! go1.26.8 test -vet=off -tags verif "${OVL[@]}" -c -o "$WBIN" ./checks/c15w/ >/tmp/verifx-build.$$.log 2>&1; then
+    echo "INFRA: harness build failed (not a verdict)"; cat /tmp/verifx-build.$$.log; rm -f /tmp/verifx-build.$$.log; exit 2
+  fi
+  rm -f /tmp/verifx-build.$$.log
+  if ! "$WBIN" -test.timeout 0 -test.run '^TestWorkerLeases$' >/tmp/c15w.$$.log 2>&1; then
+    echo "INFRA: the worker-side part of C15 did not run to completion (not a verdict)"; tail -n 30 /tmp/c15w.$$.log; rm -f /tmp/c15w.$$.log; exit 2
+  fi
+  rm -f /tmp/c15w.$$.log
+fi
 if ! go1.26.8 build -tags verif "${OVL[@]}" -o "$BIN" ./cmd/verifx >/tmp/verifx-build.$$.log 2>&1; then
   echo "INFRA: harness build failed (not a verdict)"; cat /tmp/verifx-build.$$.log; rm -f /tmp/verifx-build.$$.log; exit 2
 fi
